@@ -515,3 +515,33 @@ Proof.
       end
     | dmatch ]).
 Qed.
+
+(* ================================================================================================== *)
+(* Part D — the state-passing form of resume                                                           *)
+(* ================================================================================================== *)
+
+Definition drop_state (o : resume_outcome) : resume_result :=
+  match o with OErr c => Rejected c | ORes r => Resumed r end.
+
+(* [resume_session] is [resume_m] with the state dropped *)
+Lemma resume_m_agrees : forall a s r tmo, resume_session a s r tmo = drop_state (snd (resume_m a s r tmo)).
+Proof.
+  intros. unfold resume_session, resume_m. repeat (first [reflexivity | dmatch]).
+Qed.
+
+(* an engine error leaves the session exactly as it was, and produces nothing: the state the method
+   leaves behind is the session it was called on, with an empty sprint *)
+Lemma resume_m_rejected_unchanged : forall a s r tmo x' code,
+  resume_m a s r tmo = (x', OErr code) -> x' = {| session_ := s; sprint_ := empty_sprint |}.
+Proof.
+  intros a s r tmo x' code. unfold resume_m.
+  repeat (first [ discriminate | dmatch ]); intros H; inversion H; reflexivity.
+Qed.
+
+(* when the call returns without error the state left behind is the state in the result *)
+Lemma resume_m_ok_state : forall a s r tmo x' y, resume_m a s r tmo = (x', ORes (ROk y)) -> x' = y.
+Proof.
+  intros a s r tmo x' y. unfold resume_m.
+  repeat (first [ discriminate | dmatch ]); intros H; inversion H; subst; try reflexivity;
+    match goal with E : continue_until_wait _ _ _ _ = ROk _ |- _ => rewrite E; reflexivity end.
+Qed.
